@@ -1427,7 +1427,7 @@ class All(Criterion):
 
     def get_sql(self, ctx: SqlContext) -> str:
         sql = "{term} ALL".format(term=self.term.get_sql(ctx.copy(with_alias=False)))
-        return format_alias_sql(sql, self.alias, ctx)
+        return format_alias_sql(sql, self.alias, ctx) if ctx.with_alias else sql
 
 
 class CustomFunction:
